@@ -155,7 +155,7 @@ func (st *genState) txn(acts []model.Act, fail bool, tag string) opx {
 		w := st.w
 		willFail := fail
 		for _, a := range acts {
-			if a.FailCb {
+			if a.FailCb && !a.Swallow {
 				willFail = true
 			}
 		}
@@ -253,6 +253,7 @@ func (s genSpec) ops(st *genState) (out []opx) {
 			out = append(out, st.txn([]model.Act{a}, true, ""))
 		}
 		out = append(out, st.txn([]model.Act{{Op: "insertkey", Key: "a", W: set(3), FailCb: true}}, false, ""))
+		out = append(out, st.txn([]model.Act{{Op: "insert", W: set(8), FailCb: true, Swallow: true}, {Op: "deletekey", Key: "b"}}, false, ""))
 		out = append(out, st.txn([]model.Act{{Op: "upsertkey", Key: "a", W: set(4)}, {Op: "querykey", Key: "s1", W: []model.Write{M("n", V(2))}}}, false, ""))
 	} else {
 		full := []model.Write{W("n", V(2)), W("s", S("a")), W("b", V(1)), W("e", S("x")), W("r", S("r")), W("f", V(0x3ff8000000000000)), W("u", V(65535))}
@@ -280,6 +281,9 @@ func (s genSpec) ops(st *genState) (out []opx) {
 				st.txn([]model.Act{{Op: "del", Off: r}, {Op: "insert", W: full}}, true, ""),
 				st.txn([]model.Act{{Op: "put", Off: r, W: []model.Write{{SetTTL: true, TTL: time.Hour}}}}, false, ""),
 			)
+			// a failing insert whose error the body ignores, then a delete: the delete
+			// (values, index entries, offset re-use) must be applied in full
+			out = append(out, st.txn([]model.Act{{Op: "insert", W: full, FailCb: true, Swallow: true}, {Op: "del", Off: r}}, false, ""))
 			if s.rich {
 				out = append(out, st.txn([]model.Act{{Op: "delall"}}, false, ""))
 				out = append(out, st.txn([]model.Act{{Op: "delall"}, {Op: "insert", W: full}}, true, ""))
